@@ -70,6 +70,23 @@ def dres_term(o):
     raise ValueError(k)
 
 
+def has_noncanonical_float(msg):
+    """the model keeps a float as the opaque token repr(x); a JSON text whose float token is written
+    differently (1e2, 10000e0000, 1.50) is outside the model's float oracle: such a message is decided by
+    the oracles on the real code only"""
+    import json
+    toks = []
+
+    def pf(t):
+        toks.append(t)
+        return float(t)
+    try:
+        json.loads(bytes(msg).decode('utf-8', 'surrogatepass'), parse_float=pf)
+    except Exception:
+        return False
+    return any(repr(float(t)) != t for t in toks)
+
+
 HEADER = 'From AV Require Import Base Utf8 Json Codec.'
 
 MEMBER_VALUES = {
